@@ -110,3 +110,12 @@ Print Assumptions C10_reachable_formations.
 Theorem C10_reachable_formations_unrestricted_refuted : ~ (forall nw, stmt_vreachable_forms nw).
 Proof. exact vreachable_forms_refuted. Qed.
 Print Assumptions C10_reachable_formations_unrestricted_refuted.
+
+(** depot limits: "formation, track and depot limits hold" — depot capacities (per type and in total; the overflow depot
+    exempt) are an invariant of all histories with valid Path arguments and fit_reassign between different tours, over
+    every network loaded from an instance with non-negative capacities. Before the repair "fix: a start depot handed to
+    the receiver must have room for it" this failed (former known finding F1). *)
+From RS Require Import DepotStmts DepotFacts DepotFacts2.
+Theorem C10_depot_limits_all_valid_histories : stmt_qreachable_depot_limits_loaded.
+Proof. exact qreachable_depot_limits_loaded. Qed.
+Print Assumptions C10_depot_limits_all_valid_histories.
